@@ -379,8 +379,10 @@ def _split_tuple_assigns(fn: ast.AST) -> None:
             if isinstance(st, ast.Assign) and len(st.targets) == 1 and isinstance(st.targets[0], ast.Tuple) and isinstance(st.value, ast.Tuple) \
                     and len(st.targets[0].elts) == len(st.value.elts) and not any(isinstance(x, ast.Starred) for x in st.targets[0].elts + st.value.elts):
                 if _seq_ok(st.targets[0].elts, st.value.elts):
-                    blk[i:i + 1] = [ast.copy_location(ast.Assign(targets=[t], value=v, lineno=st.lineno), st) for t, v in zip(st.targets[0].elts, st.value.elts)]
-                    i += len(st.value.elts)
+                    parts = [ast.copy_location(ast.Assign(targets=[t], value=v, lineno=st.lineno), st) for t, v in zip(st.targets[0].elts, st.value.elts)
+                             if not (isinstance(t, ast.Name) and isinstance(v, ast.Name) and t.id == v.id)]       # x = x: nothing
+                    blk[i:i + 1] = parts or [ast.copy_location(ast.Pass(), st)]
+                    i += max(len(parts), 1)
                     continue
             # `r, c = x.shape` (or a local holding x.shape) -> r = x.shape[0]; c = x.shape[1]   (extents are unpacked by position;
             # the length check the unpacking implies is not a behaviour any property speaks about)
